@@ -386,6 +386,15 @@ def build(sess):
     check_init(sess)
     check_intersection(sess)
     composition(sess)
+    # supplementary (bounded, labelled, not counted): the proof is over the reals and per call; binary64 rounding inside a comparison
+    # helper and state shared between calls are outside it
+    fs = native('n_c14', 'float_sweep', {'seed': sess.seed, 'n': 300 if sess.tier == 'quick' else 3000})
+    sess.bounded.append({'function': 'rtree.Index on non-dyadic binary64 coordinates and repeated queries (supplementary)', 'bound': fs.get('bound'),
+                         'evaluations': fs.get('tried', 0), 'distinct_nontrivial': fs.get('distinct', 0),
+                         'rule': 'brute-force comparison oracle (exact on binary64 inputs); a query is repeated after the caller edited its result'})
+    if fs.get('found'):
+        sess.native_violations.append({'obligation': 'C14/bounded/binary64-and-repeated-queries', 'native_input': fs.get('input'), 'observed': fs.get('observed'),
+                                       'expected': fs.get('expected'), 'summary': f"{fs.get('input')} -> {fs.get('observed')} expected {fs.get('expected')}"})
     sess.explanation = ('Index.__init__ and Index.intersection are executed symbolically on an input list of unknown length; set '
                         'equalities are proved pointwise with loop invariants and the functions\' own contracts as induction '
                         'hypotheses; termination by the measure len(bboxes) (construction) and tree height (query).')
